@@ -668,7 +668,7 @@ func LoadContractFile(path string, trusted bool) (*ContractSet, error) {
 		n int
 	}
 	var lines []line
-	if strings.HasSuffix(path, ".go") {
+	if strings.HasSuffix(path, ".go") || strings.HasSuffix(path, ".h") {
 		all := strings.Split(text, "\n")
 		in := false
 		for i, l := range all {
